@@ -60,6 +60,21 @@ def generate():
         raise gt.GenError("encode.rs set_custom_dictionary...: `self.hasher_ = opt_hasher;` not found")
     out.append("Definition dict_frees_old_hasher : bool := %s." % _b(a and a.start() < b.start()))
     out.append("Definition dict_destroys_orig_hasher : bool := %s." % _b(re.search(r"DestroyHasher\(m16,\s*&mut orig_hasher\)", body)))
+    # the hasher arrives by value: it has to be owned by the state before the function can return
+    first_ret = re.search(r"\breturn\b", body)
+    out.append("Definition dict_installs_hasher_before_any_return : bool := %s." % _b(first_ret is None or b.start() < first_ret.start()))
+    # the condition under which the dictionary is ignored
+    ig = re.search(r"if\s+dict_size == 0\s*\|\|\s*self\.params\.quality == 0\s*\|\|\s*self\.params\.quality == 1(\s*\|\|\s*size <= 1)?\s*\{", body)
+    if not ig:
+        raise gt.GenError("encode.rs set_custom_dictionary...: the `dictionary ignored` condition was not recognised")
+    out.append("Definition dict_ignores_one_byte : bool := %s." % _b(ig.group(1)))
+    # a dictionary longer than the window is cut; a supplied hasher indexed the uncut one
+    cut = re.search(r"if\s+size > max_dict_size\s*\{(.*?)\n        \}\n", body, re.S)
+    if not cut:
+        raise gt.GenError("encode.rs set_custom_dictionary...: `if size > max_dict_size` not found")
+    drops = re.search(r"if\s+has_optional_hasher\s*\{(.*?)\}", cut.group(1), re.S)
+    out.append("Definition dict_cut_discards_supplied_hasher : bool := %s." % _b(drops))
+    out.append("Definition dict_cut_frees_supplied_hasher : bool := %s." % _b(drops and re.search(r"DestroyHasher\(&mut self\.m8,\s*&mut self\.hasher_\)", drops.group(1))))
 
     # --- one-shot: which allocator builds the quality-10 hasher
     body = _strip_comments(gt.fn_body_any(enc, "encoder_compress", "encode.rs"))
@@ -120,17 +135,19 @@ def generate():
     if i0 < 0:
         raise gt.GenError("enc/mod.rs BrotliCompressCustomIoCustomDict: state creation not found")
     rest = body[i0:]
+    # every way out once the state exists - `return` and the `?` operator alike - has the destroy
+    # call in front of it (in the text since the last opening brace, i.e. on the same path)
     returns = [mm.start() for mm in re.finditer(r"\breturn\b", rest)]
-    destroyed = 0
-    for r in returns:
-        # the enclosing block: text from the last `{` before the return
-        blk = rest[rest.rfind("{", 0, r):r]
-        if "BrotliEncoderDestroyInstance(s)" in blk:
-            destroyed += 1
-    out.append("Definition copy_returns : N := %d." % len(returns))
-    out.append("Definition copy_returns_destroying : N := %d." % destroyed)
+    tries = [mm.start() for mm in re.finditer(r"\?\s*;", rest)]
     loop_end = rest.rfind("BrotliEncoderDestroyInstance(s)")
-    tail_ok = loop_end > max(returns or [0]) and "read_err?" in rest[loop_end:]
+    def destroyed_before(pos):
+        return "BrotliEncoderDestroyInstance(s)" in rest[rest.rfind("{", 0, pos):pos]
+    out.append("Definition copy_returns : N := %d." % len(returns))
+    out.append("Definition copy_returns_destroying : N := %d." % sum(1 for r in returns if destroyed_before(r)))
+    inner_tries = [t for t in tries if t < loop_end]
+    out.append("Definition copy_try_exits : N := %d." % len(inner_tries))
+    out.append("Definition copy_try_exits_destroying : N := %d." % sum(1 for t in inner_tries if destroyed_before(t)))
+    tail_ok = loop_end > max(returns or [0]) and all(t > loop_end or destroyed_before(t) for t in tries) and "read_err?" in rest[loop_end:]
     out.append("Definition copy_tail_destroys : bool := %s." % _b(tail_ok))
 
     # --- threads
@@ -142,9 +159,16 @@ def generate():
     out.append("Definition part_error_frees_chunk : bool := %s." % _b(re.search(r"Err\(e\)\s*=>\s*\{\s*<Alloc as Allocator<u8>>::free_cell\(&mut state\.m8,\s*mem\)", body)))
     out.append("Definition part_returns_state_alloc : bool := %s." % _b(len(re.findall(r"alloc:\s*state\.m8", body)) == 2))
     body = gt.fn_body_any(th, "CompressMulti", "threading.rs")
-    out.append("Definition stitch_frees_with_result_alloc : bool := %s." % _b(re.search(r"free_cell\(\s*&mut cur_result\.alloc,\s*compressed_out\.data_backing,?\s*\)", body)))
+    n_ok_arms = len(re.findall(r"Ok\(compressed_out\)(?:\s+if [^=]*)?\s*=>", body))
+    n_frees = len(re.findall(r"free_cell\(\s*&mut cur_result\.alloc,\s*compressed_out\.data_backing,?\s*\)", body))
+    out.append("Definition stitch_frees_with_result_alloc : bool := %s." % _b(n_ok_arms >= 1 and n_frees == n_ok_arms))
     out.append("Definition stitch_hands_back_alloc : bool := %s." % _b(re.search(r"thread\.0\s*=\s*InternalSendAlloc::A\(cur_result\.alloc,", body)))
     out.append("Definition multi_clones_with_thread_alloc : bool := %s." % _b(re.search(r"let \(alloc, out_hasher\) = alloc_per_thread\[thread_index\]\.unwrap_view_mut\(\);\s*\*out_hasher = hasher\.clone_with_alloc\(alloc\);", body)))
+    jm = re.search(r"InternalSendAlloc::Join\(join\)\s*=>\s*match join\.join\(\)\s*\{\s*Ok\(result\)\s*=>\s*result,\s*Err\(err\)\s*=>\s*\{(.*?)\n                    \}", body, re.S)
+    if not jm:
+        raise gt.GenError("threading.rs CompressMulti: the join arm of the stitching loop was not recognised")
+    out.append("Definition join_failure_keeps_stitching : bool := %s." % _b("continue;" in jm.group(1) and not re.search(r"\breturn\b", jm.group(1))))
+    out.append("Definition stitch_frees_chunks_after_failure : bool := %s." % _b(re.search(r"Ok\(compressed_out\) if compression_result\.is_err\(\) => \{.*?free_cell\(\s*&mut cur_result\.alloc,\s*compressed_out\.data_backing,?\s*\)", body, re.S) or not re.search(r"if compression_result\.is_err\(\)", body)))
     u = body.find("spawner_and_input.unwrap()")
     if u < 0:
         raise gt.GenError("threading.rs CompressMulti: `spawner_and_input.unwrap()` (input handed back) not found")
